@@ -598,6 +598,20 @@ def random_battery():
     b.append(Scenario(hdr + "0 (random(%s))\nloop(i,2)\nresetRandom;\n0 (random(%s))\nend loop\n" % ((BIG,) * 2), S,
                       expect={"replay": [(1, 0), (2, 0)], "range": (0, 1 << 62)}, note="resetRandom inside a loop"))
     b.append(Scenario(hdr + "0 (random(2))\n0 (random(3))\n0 (random(2))\n", S, expect={"range": (0, 3)}, note="small bounds stay in range"))
+    # second round: bounds just above 2^32 (many draws), a draw inside a declared signal, several resets in one run
+    for bound in (0x100000001, 3 << 31, (1 << 33) + 5, (1 << 63) - 1):
+        b.append(Scenario(hdr + "loop(i,300)\n0 (random(%d))\nend loop\n" % bound, S, max_rows=400,
+                          expect={"range": (0, bound)}, note="300 draws below %d stay in range" % bound))
+    S2 = [("in", "A", 1, 0), ("out", "Y", 8)]
+    b.append(Scenario("A Y W V\ndeclare W = 0;\ndeclare V = random(%s) + Y * 0;\n0 X (random(%s)) X\n0 X (random(%s)) X\nresetRandom;\n"
+                      "0 X (random(%s)) X\n0 X (random(%s)) X\n" % ((BIG,) * 5), S2, default_answer=[0],
+                      expect={"replay_cols": {"W": [(2, 0), (3, 1)], "V": [(2, 0), (3, 1)]}, "distinct_cols": [("W", "V")]},
+                      note="a draw inside a declared signal comes from the run's generator and is replayed after resetRandom"))
+    b.append(Scenario(hdr + "0 (random(%s))\n0 (random(%s))\nresetRandom;\n0 (random(%s))\nresetRandom;\n0 (random(%s))\n0 (random(%s))\n"
+                      "resetRandom;\nresetRandom;\n0 (random(%s))\n" % ((BIG,) * 6), S,
+                      expect={"replay": [(2, 0), (3, 0), (4, 1), (5, 0)], "range": (0, 1 << 62)}, note="every resetRandom, also the second and third, replays from the start"))
+    b.append(Scenario(hdr + "loop(k,4)\nresetRandom;\n0 (random(%s))\n0 (random(%s))\nend loop\n" % ((BIG,) * 2), S,
+                      expect={"replay": [(2, 0), (3, 1), (4, 0), (5, 1), (6, 0), (7, 1)], "range": (0, 1 << 62)}, note="resetRandom in each of four loop passes"))
     return b
 
 
@@ -607,13 +621,24 @@ def random_judge_one(o, sc):
     if any(i[0] == "err" for i in o.items):
         return "a row using random() is an error item (%s)" % sc.note
     lo, hi = e.get("range", (None, None))
-    for v in vals:
+    for v in (vals if "range" in e else []):
         try:
             iv = int(v)
         except ValueError:
             return "non-numeric value %s" % v
         if lo is not None and not (lo <= iv < hi):
             return "drawn value %d outside [%d, %d) (%s)" % (iv, lo, hi, sc.note)
+    for col, pairs in e.get("replay_cols", {}).items():
+        cv = [dict((n, out) for n, _, out, _, _ in r["outputs"]).get(col) for r in o.rows]
+        for later, earlier in pairs:
+            if later >= len(cv) or cv[later] != cv[earlier]:
+                return "column %s: row %d has %s but row %d had %s: draws after resetRandom do not replay (%s)" % (
+                    col, later + 1, cv[later] if later < len(cv) else None, earlier + 1, cv[earlier] if earlier < len(cv) else None, sc.note)
+    for a_, b_ in e.get("distinct_cols", []):
+        for r in o.rows:
+            d = dict((n, out) for n, _, out, _, _ in r["outputs"])
+            if d.get(a_) == d.get(b_):
+                return "columns %s and %s of one row show the same draw %s: they do not share one generator (%s)" % (a_, b_, d.get(a_), sc.note)
     for later, earlier in e.get("replay", []):
         if later >= len(vals) or earlier >= len(vals):
             return "only %d rows were produced (%s)" % (len(vals), sc.note)
